@@ -106,6 +106,12 @@ def native_scope_models(chk, oracle, jobs, pools, what='C06'):
                 if ent is None:
                     chk.inconclusive.append('inverse-view oracle failed on %r: %s' % (text, err)); continue
                 probs = invk.check_inverse(ent, exp)
+                if not probs:
+                    # the same program as a free-standing document that no package owns (untitled buffer, loose .gleam file)
+                    ent2, err2 = invk.inverse_entries(oracle, {'text': text})
+                    if ent2 is None:
+                        chk.inconclusive.append('inverse-view oracle failed on the free-standing document %r: %s' % (text, err2)); continue
+                    probs = ['as a free-standing document without a package: ' + p_ for p_ in invk.check_inverse(ent2, exp)]
                 if probs:
                     bad += 1
                     if bad <= 3:
